@@ -12,7 +12,8 @@ What is modelled (mirrors, function by function):
   * symcc.rs             `check_unsat_asserts` (the solver-free shortcut: some assert is the literal `false` ⇒ unsat;
                          all asserts are the literal `true` ⇒ sat).
 
-What is NOT modelled: the compiler `Expr → Term` (symcc/compiler.rs, symccopt/compiler.rs, extfun.rs, bitvec.rs,
+What is NOT modelled HERE (a first fragment of the compiler and factory is modelled in Cedar/SymCompile.lean and
+connected to this skeleton by `Cedar.C18.vc_skeleton_correct_fragment`): the compiler `Expr → Term` (symcc/compiler.rs, symccopt/compiler.rs, extfun.rs, bitvec.rs,
 extension_types/), the term factory's constant folding on non-boolean terms, the symbolizer
 (`SymEnv::from_concrete_env`) and the enforcer's term construction.  Their contract on a literal environment is
 
